@@ -22,6 +22,7 @@ CFG = {
     "components": [
         {"component": "taskloop", "bin": "taskloop.test", "timeout_quick": 120, "timeout_thorough": 500,
          "trivial_regex": r"^(skip|error.*|bad-op.*|inside)$"},
+        {"component": "apiatomic", "bin": "ice.test", "timeout_quick": 120, "timeout_thorough": 400},
         {"component": "apihammer", "bin": "ice.test", "race": True, "tiers": ["thorough"], "timeout_thorough": 400},
     ],
     "rule": "taskloop: 7 source-shape lines, one line per off-loop access of an Agent field (static walk of /repo) and per field "
@@ -30,7 +31,9 @@ CFG = {
             "closers; contexts: background / cancelled at a random moment / pre-cancelled / the loop itself; tasks: instant, "
             "yielding, blocked until released, blocked until released or ctx.Done, spawning another Run, re-entrant Run). "
             "Distinct = distinct (history, verdict) lines. apihammer (thorough only, -race build): concurrent public API calls "
-            "on live agents with inbound traffic over an in-memory network; a data race report is a violation.",
+            "on live agents with inbound traffic over an in-memory network; a data race report is a violation. apiatomic "
+            "(both tiers): k overlapping calls of one public method (Start*, Restart, SetRemoteCredentials, GatherCandidates) "
+            "with the loop held busy; the outcome must be that of some sequential order of the whole calls.",
     "translated": [],
     "trusted_base": ["Go scheduler is fair; select chooses nondeterministically among ready cases; channel operations, sync.Once and "
                      "atomics are sequentially consistent; submitted tasks and the onClose/preStop callbacks terminate",
